@@ -24,13 +24,24 @@
   sender's Endpoint object), provided no message lies in the class F-C13a; `model_trace_counterexample` is the
   kernel-checked trace for the excluded case.
 
+  COMPLETENESS (forests of configurations that loaded — bound regenerated from Zone::OnAllConfigLoaded by
+  gen/c13_zonelevels.py): `isChildOf_iff_below_loaded`, `config_update_object_accept_iff_entitled`,
+  `config_delete_object_accept_iff_entitled`, `foreign_update_accept_iff_entitled` (guards neither laxer nor stricter
+  than the statement), `sender_strictly_below_is_refused`, `entitledB_iff_entitled_loaded` (the executable predicate IS
+  the proposition).  `model_trace_failure_is_fc13a` is the whole-trace theorem WITHOUT proviso;
+  `relayed_update_entitles_first_hop` is the two-hop statement for an honest own-zone peer;
+  `origin_claim_matters_only_for_own_zone_peer`: `originZone` is ignored for every other sender; `loadedB_sound` /
+  `driver_forests_are_loaded`: the forests of the correspondence runs satisfy the hypothesis `Loaded`.
+
   History: F-C13b (`pki::UpdateCertificate` had no endpoint test; /repo ba4edd4) and F-C13c
   (`event::SetRemovalInfo` did not look at the object's zone; /repo cc1e22f) were found by this check and
   are repaired; their `…_partial`/`…_counterexample` pairs have been replaced by the full theorems.
 -/
 import IcingaProofs.C13.Lemmas
 import IcingaProofs.C13.Trace
+import IcingaProofs.C13.Complete
 import IcingaProofs.Gen.ApiFunctions
+import IcingaProofs.Gen.ZoneLevels
 
 namespace Icinga.C13
 
@@ -670,5 +681,387 @@ example : applies exForest .executeCommand { exFromMaster with forwardZone := so
 example : exFromMaster.authenticated = true ∧ exFromMaster.endpointZone = some 0 ∧ (0 : Zone) ≠ exFromMaster.localZone ∧
     exFromMaster.objExists = true ∧ canAccessObject exForest exFromMaster.localZone 0 exFromMaster.objZone = true := by decide
 
+/-! ## Completeness: in the forests of configurations that loaded, the guards are EXACTLY the property's relations -/
+
+/-- A zone forest within the bound that `Zone::OnAllConfigLoaded` enforces (constant regenerated from zone.cpp on every
+    run): every zone has at most `maxLevels` proper ancestors; no cycles. -/
+abbrev LoadedSrc (f : Forest) : Prop := Loaded f Icinga.Gen.ZoneLevels.maxLevels
+
+/-- **fuel_covers_source_level_limit.**  The walk of the model's `IsChildOf` is longer than every chain of parents of a
+    configuration the source admits. -/
+theorem fuel_covers_source_level_limit : Icinga.Gen.ZoneLevels.maxLevels < maxDepth := by decide
+
+/-- **isChildOf_iff_below_loaded.**  On every loaded forest `Zone::IsChildOf` as modelled (fuel 40) IS the relation
+    "the zone itself or a zone below it" — complete, not merely sound. -/
+theorem isChildOf_iff_below_loaded (f : Forest) (hl : LoadedSrc f) (a z : Zone) :
+    isChildOf f a z = true ↔ Below f a z :=
+  isChildOf_iff_below_of_loaded hl fuel_covers_source_level_limit a z
+
+/-- **config_update_object_accept_iff_entitled.**  `config::UpdateObject` gets past its guards IF AND ONLY IF the
+    property entitles the sender (authenticated, configured, own zone or above, accept_config): the guard is neither
+    laxer nor stricter than the statement. -/
+theorem config_update_object_accept_iff_entitled (f : Forest) (hl : LoadedSrc f) (c : Ctx) :
+    accepts f .configUpdateObject c = true ↔ Entitled f .configUpdateObject c := by
+  constructor
+  · exact accept_implies_entitled_config f _ c rfl
+  · rintro (h | ⟨ha, s, hz, hb, hc⟩)
+    · simp [Method.cls] at h
+    · have he : c.endpoint = some s := by simp [Ctx.endpoint, ha, hz]
+      simp [accepts, guardConfigSender, he, hc, (isChildOf_iff_below_loaded f hl _ _).mpr hb]
+
+/-- The same for `config::DeleteObject`, which additionally wants an existing object of package `_api`. -/
+theorem config_delete_object_accept_iff_entitled (f : Forest) (hl : LoadedSrc f) (c : Ctx) :
+    accepts f .configDeleteObject c = true ↔
+      (Entitled f .configDeleteObject c ∧ c.objExists = true ∧ c.apiPackage = true) := by
+  constructor
+  · intro h
+    refine ⟨accept_implies_entitled_config f _ c rfl h, ?_⟩
+    simp [accepts] at h
+    exact ⟨h.1.2, h.2⟩
+  · rintro ⟨h | ⟨ha, s, hz, hb, hc⟩, ho, hp⟩
+    · simp [Method.cls] at h
+    · have he : c.endpoint = some s := by simp [Ctx.endpoint, ha, hz]
+      simp [accepts, guardConfigSender, he, hc, ho, hp, (isChildOf_iff_below_loaded f hl _ _).mpr hb]
+
+/-- **foreign_update_accept_iff_entitled.**  A state/event update from a sender of ANOTHER zone is applied if and only
+    if the property entitles the sender (the object lies in the sender's zone or below it, or in a global zone) and the
+    object exists.  (`event::SetRemovalInfo` is stricter: `removal_info_only_from_own_zone_or_above`.) -/
+theorem foreign_update_accept_iff_entitled (f : Forest) (hl : LoadedSrc f) (m : Method) (c : Ctx) (s : Zone)
+    (hm : m.cls = .stateUpdate) (hnr : m ≠ .setRemovalInfo)
+    (hz : c.endpointZone = some s) (hne : s ≠ c.localZone) :
+    accepts f m c = true ↔ (Entitled f m c ∧ c.objExists = true) := by
+  constructor
+  · intro h
+    refine ⟨accept_implies_entitled_update_from_other_zone f m c (Or.inl hm) (by rw [hz]; intro h'; exact hne (Option.some.inj h')) h, ?_⟩
+    cases m <;> simp [Method.cls] at hm <;> (simp [accepts] at h; exact h.1.2)
+  · rintro ⟨h | ⟨ha, s', hz', he⟩, ho⟩
+    · rw [hm] at h; cases h
+    · rw [hz] at hz'; cases hz'
+      rw [hm] at he
+      exact entitled_foreign_update_is_accepted f m c s hm hnr ha hz hne ho
+        ((canAccessObject_iff_of_loaded hl fuel_covers_source_level_limit _ _ _).mpr he)
+
+/-- **sender_strictly_below_is_refused.**  On every loaded forest: configuration (files, runtime objects, deletions),
+    command execution/forwarding, the node's certificate and removal information are NEVER applied for a sender whose
+    zone lies strictly below the receiver's — whatever the message says (`originZone` included), whatever the
+    accept_* settings. -/
+theorem sender_strictly_below_is_refused (f : Forest) (hl : LoadedSrc f) (m : Method) (c : Ctx) (s : Zone)
+    (hm : m.cls = .config ∨ m.cls = .command ∨ m.cls = .certUpdate ∨ m = .setRemovalInfo)
+    (hz : c.endpointZone = some s) (hbelow : Below f s c.localZone) (hne : s ≠ c.localZone) :
+    accepts f m c = false := by
+  cases hacc : accepts f m c with
+  | false => rfl
+  | true =>
+    exfalso
+    apply hne
+    apply Below.antisymm_of_loaded hl hbelow
+    rcases hm with hm | hm | hm | hm
+    · rcases accept_implies_entitled_config f m c hm hacc with h | ⟨_, s', hz', he⟩
+      · rw [hm] at h; cases h
+      · rw [hz] at hz'; cases hz'; rw [hm] at he; exact he.1
+    · rcases accept_implies_entitled_command f m c hm hacc with h | ⟨_, s', hz', he⟩
+      · rw [hm] at h; cases h
+      · rw [hz] at hz'; cases hz'; rw [hm] at he; exact he.1
+    · rcases accept_implies_entitled_cert_update f m c hm hacc with h | ⟨_, s', hz', he⟩
+      · rw [hm] at h; cases h
+      · rw [hz] at hz'; cases hz'; rw [hm] at he; exact he
+    · subst hm
+      obtain ⟨_, s', hz', hb⟩ := removal_info_only_from_own_zone_or_above f c hacc
+      rw [hz] at hz'; cases hz'; exact hb
+
+/-! ## The whole trace WITHOUT hypothesis -/
+
+/-- **model_step_failure_is_fc13a.**  For every forest, method, context and effect: if the specification finds
+    anything at all in the model's observation of a message, it is the clause `applied_only_if_entitled`, the message
+    got past its guards and lies in the class F-C13a.  (No other clause can fail, no other class of message.) -/
+theorem model_step_failure_is_fc13a (f : Forest) (m : Method) (c : Ctx) (eff : Obs) (cl : Clause)
+    (h : specStep f m c (observe f m c eff) = some cl) :
+    cl = .appliedOnlyIfEntitled ∧ inFC13a f m c = true ∧ accepts f m c = true := by
+  cases hk : inFC13a f m c with
+  | false => rw [model_step_satisfies_spec f m c eff hk] at h; cases h
+  | true =>
+    have hk' := hk
+    simp only [inFC13a, Bool.and_eq_true, Bool.or_eq_true, beq_iff_eq] at hk'
+    obtain ⟨⟨⟨hcls, ha⟩, hz⟩, _⟩ := hk'
+    have hns : m.cls ≠ .session := by
+      rcases hcls with (h' | h') | h' <;> rw [h'] <;> decide
+    unfold specStep at h
+    split at h
+    · rename_i hc
+      simp [ha, hz] at hc
+    · split at h
+      · rename_i hc
+        simp only [Bool.and_eq_true] at hc
+        refine ⟨(Option.some.inj h).symm, rfl, ?_⟩
+        cases hacc : accepts f m c with
+        | true => rfl
+        | false =>
+          have := refused_observes_nothing f m c eff hacc
+          rw [this] at hc
+          cases hc.1
+      · split at h
+        · rename_i hc
+          simp [hns] at hc
+        · cases h
+
+/-- **model_trace_failure_is_fc13a** — THE WHOLE-TRACE THEOREM WITHOUT PROVISO.  For every zone forest and every
+    sequence of messages (any methods, contexts, effects, length): whatever the specification predicate reports on the
+    model's trace is the clause `applied_only_if_entitled` at a message that was accepted and lies in the class F-C13a —
+    exactly what the check files under the known finding; every other report of the predicate on the implementation's
+    trace is a deviation from the model. -/
+theorem model_trace_failure_is_fc13a (f : Forest) (msgs : List (Method × Ctx × Obs)) (i k : Nat) (cl : Clause)
+    (h : specTrace f (modelTrace f msgs) i = some (k, cl)) :
+    cl = .appliedOnlyIfEntitled ∧ ∃ j s, k = i + j ∧ msgs[j]? = some s ∧
+      inFC13a f s.1 s.2.1 = true ∧ accepts f s.1 s.2.1 = true := by
+  induction msgs generalizing i with
+  | nil => simp [modelTrace, specTrace] at h
+  | cons s rest ih =>
+    obtain ⟨m, c, eff⟩ := s
+    simp only [modelTrace, List.map_cons, specTrace] at h
+    cases hs : specStep f m c (observe f m c eff) with
+    | some cl' =>
+      simp only [hs] at h
+      cases h
+      obtain ⟨h1, h2, h3⟩ := model_step_failure_is_fc13a f m c eff cl hs
+      exact ⟨h1, 0, (m, c, eff), rfl, rfl, h2, h3⟩
+    | none =>
+      simp only [hs] at h
+      obtain ⟨h1, j, s, hk, hj, h2, h3⟩ := ih (i + 1) h
+      exact ⟨h1, j + 1, s, by omega, by simpa using hj, h2, h3⟩
+
+/-! ## The executable specification IS the proposition on loaded forests -/
+
+theorem belowB_complete {f : Forest} {d : Zone → Nat} (hd : ∀ a p, f.parent a = some p → d p < d a)
+    {a z : Zone} (h : Below f a z) : ∀ n, d a - d z < n → belowB f n a z = true := by
+  induction h with
+  | refl a =>
+    intro n hn
+    cases n with
+    | zero => omega
+    | succ n => simp [belowB]
+  | step hp hb ih =>
+    rename_i a p z
+    intro n hn
+    cases n with
+    | zero => omega
+    | succ n =>
+      unfold belowB
+      have h3 := hd _ _ hp
+      have h4 := Below.rank_le hd hb
+      simp only [hp, Bool.or_eq_true]
+      exact Or.inr (ih n (by omega))
+
+theorem belowB_iff_below_loaded (f : Forest) (hl : LoadedSrc f) (a z : Zone) :
+    belowB f specDepth a z = true ↔ Below f a z := by
+  constructor
+  · exact belowB_sound f _ a z
+  · intro h
+    obtain ⟨d, hd, hle⟩ := hl
+    apply belowB_complete hd h
+    have := hle a
+    have : Icinga.Gen.ZoneLevels.maxLevels < specDepth := by decide
+    omega
+
+/-- **entitledB_iff_entitled_loaded.**  On every loaded forest the predicate the driver evaluates on the
+    implementation's observations (`entitledB`, walk length 64) is EQUIVALENT to the proposition `Entitled` the theorems
+    are about: a `SPECFAIL applied_only_if_entitled` is never an artefact of the executable walk, and no unentitled
+    message slips through it. -/
+theorem entitledB_iff_entitled_loaded (f : Forest) (hl : LoadedSrc f) (m : Method) (c : Ctx) :
+    entitledB f m c = true ↔ Entitled f m c := by
+  constructor
+  · exact entitledB_sound f m c
+  · rintro (h | ⟨ha, s, hz, he⟩)
+    · simp [entitledB, h]
+    · have hb := fun a z => (belowB_iff_below_loaded f hl a z).mpr
+      have hw : ∀ oz, ObjWithin f c.localZone s oz → objWithinB f c.localZone s oz = true := by
+        intro oz h
+        unfold ObjWithin at h
+        unfold objWithinB
+        simp only [Bool.or_eq_true]
+        exact h.imp id (hb _ _)
+      simp only [entitledB, ha, hz, Bool.true_and, Bool.or_eq_true]
+      right
+      cases hcls : m.cls <;> simp only [hcls, EntitledZone, entitledZoneB] at he ⊢
+      · exact hw _ he
+      · simp only [Bool.or_eq_true]; exact he.imp (hw _) id
+      · obtain ⟨ez, hx, hbel⟩ := he
+        simp only [hx]; exact hb _ _ hbel
+      · simp [he]
+      · simp only [Bool.and_eq_true]; exact ⟨hb _ _ he.1, he.2⟩
+      · simp only [Bool.and_eq_true, Bool.or_eq_true]; exact ⟨hb _ _ he.1, he.2⟩
+      · exact hb _ _ he
+
+/-! ## Two hops: what an honest peer of the own zone relays -/
+
+/-- The context in which the receiver sees a message that its own-zone peer received under `c1` and relayed:
+    `ApiListener::SyncRelayMessage` (apilistener.cpp:1337-1338) writes the name of `origin->FromZone` into `originZone`
+    when there is one; the connection is the peer's (authenticated, own zone), which is not the command endpoint. -/
+def relayedByPeer (c1 : Ctx) : Ctx :=
+  { c1 with authenticated := true, endpointZone := some c1.localZone, originZone := c1.fromZone,
+            senderIsCommandEndpoint := false }
+
+/-- **relayed_update_entitles_first_hop** (what F-C13a leaves intact).  If the own-zone peer relays honestly — i.e. puts
+    the zone of the endpoint IT received the message from into `originZone` — then an update-class message the receiver
+    accepts from the peer is one the FIRST-HOP sender (of another zone) is entitled to: the `originZone` detour loses
+    nothing as long as the peer does not lie.  For every forest, method and first-hop context. -/
+theorem relayed_update_entitles_first_hop (f : Forest) (m : Method) (c1 : Ctx) (s : Zone)
+    (hm : m.cls = .stateUpdate ∨ m.cls = .checkResult ∨ m.cls = .execResult)
+    (he : c1.endpoint = some s) (hne : s ≠ c1.localZone)
+    (h : accepts f m (relayedByPeer c1) = true) : Entitled f m c1 := by
+  have hfz1 : c1.fromZone = some s := fromZone_foreign he hne
+  have he2 : (relayedByPeer c1).endpoint = some (relayedByPeer c1).localZone := by
+    simp [relayedByPeer, Ctx.endpoint]
+  have hfz2 : (relayedByPeer c1).fromZone = some s := by
+    rw [fromZone_own he2]; simp [relayedByPeer, hfz1]
+  have hz := entitledZoneB_sound f _ s _ (update_guard_fromZone f m _ s hm hfz2 h)
+  obtain ⟨ha, hez⟩ := endpoint_some he
+  refine Or.inr ⟨ha, s, hez, ?_⟩
+  rcases hm with hm | hm | hm <;> rw [hm] at hz ⊢
+  · exact hz
+  · rcases hz with hz | hz
+    · exact Or.inl hz
+    · simp [relayedByPeer] at hz
+  · exact hz
+
+example : accepts exForest .setAcknowledgement (relayedByPeer exFromMaster) = true := by decide
+example : (relayedByPeer exFromMaster).originZone = some 0 ∧ exFromMaster.endpoint = some 0 := by decide
+
+
+/-! ## The forests of the correspondence runs satisfy the hypothesis of the completeness theorems -/
+
+theorem depthOf_lt (f : Forest) : ∀ (n : Nat) (a : Zone) (d : Nat), depthOf f n a = some d → d < n := by
+  intro n
+  induction n with
+  | zero => intro a d h; simp [depthOf] at h
+  | succ n ih =>
+    intro a d h
+    unfold depthOf at h
+    cases hp : f.parent a with
+    | none => simp [hp] at h; omega
+    | some p =>
+      simp only [hp, Option.map_eq_some_iff] at h
+      obtain ⟨k, hk, rfl⟩ := h
+      have := ih p k hk
+      omega
+
+theorem depthOf_succ (f : Forest) : ∀ (n : Nat) (a : Zone) (d : Nat), depthOf f n a = some d → depthOf f (n + 1) a = some d := by
+  intro n
+  induction n with
+  | zero => intro a d h; simp [depthOf] at h
+  | succ n ih =>
+    intro a d h
+    unfold depthOf at h ⊢
+    cases hp : f.parent a with
+    | none => simpa [hp] using h
+    | some p =>
+      simp only [hp, Option.map_eq_some_iff] at h ⊢
+      obtain ⟨k, hk, rfl⟩ := h
+      exact ⟨k, ih p k hk, rfl⟩
+
+theorem loadedB_sound (f : Forest) (n bound : Nat) (hout : ∀ a, n ≤ a → f.parent a = none)
+    (h : loadedB f n bound = true) : Loaded f bound := by
+  refine ⟨fun a => (depthOf f (bound + 1) a).getD 0, ?_, ?_⟩
+  · intro a p hp
+    have han : a < n := by
+      apply Decidable.byContradiction
+      intro hc
+      rw [hout a (Nat.le_of_not_lt hc)] at hp
+      cases hp
+    have hs : (depthOf f (bound + 1) a).isSome = true := by
+      simp only [loadedB, List.all_eq_true, List.mem_range] at h
+      exact h a han
+    obtain ⟨k, hk⟩ := Option.isSome_iff_exists.mp hs
+    have hk' := hk
+    unfold depthOf at hk'
+    simp only [hp, Option.map_eq_some_iff] at hk'
+    obtain ⟨k', hk2, rfl⟩ := hk'
+    have := depthOf_succ f bound p k' hk2
+    simp [hk, this]
+  · intro a
+    show (depthOf f (bound + 1) a).getD 0 ≤ bound
+    cases hd : depthOf f (bound + 1) a with
+    | none => simp
+    | some d => have := depthOf_lt f _ a d hd; simp only [Option.getD_some]; omega
+
+
+/-- **driver_forests_are_loaded.**  Every forest the driver lets pass (`loadedB … harnessLevelBound`, zones outside the
+    table have no parent) is a forest the SOURCE admits: the completeness theorems apply to every case of every run. -/
+theorem driver_forests_are_loaded (f : Forest) (n : Nat) (hout : ∀ a, n ≤ a → f.parent a = none)
+    (h : loadedB f n harnessLevelBound = true) : LoadedSrc f := by
+  obtain ⟨d, hd, hle⟩ := loadedB_sound f n harnessLevelBound hout h
+  refine ⟨d, hd, fun a => Nat.le_trans (hle a) ?_⟩
+  decide
+
+example : loadedB exForest 5 harnessLevelBound = true := by decide
+/-- a cycle 0 → 1 → 0 is not loadable -/
+example : loadedB { parent := fun z => if z = 0 then some 1 else if z = 1 then some 0 else none, isGlobal := fun _ => false } 2 harnessLevelBound = false := by decide
+
+/-! ## The claim inside the message body -/
+
+/-- **origin_claim_matters_only_for_own_zone_peer.**  The `originZone` field — an unauthenticated claim inside the message
+    body — has NO influence on whether a message is applied unless the connection is an authenticated endpoint of the
+    receiver's own zone: for anonymous, unconfigured and foreign-zone senders, every method, every forest. -/
+theorem origin_claim_matters_only_for_own_zone_peer (f : Forest) (m : Method) (c : Ctx) (o : Option Zone)
+    (h : c.endpoint ≠ some c.localZone) :
+    applies f m { c with originZone := o } = applies f m c := by
+  have hep : ({ c with originZone := o } : Ctx).endpoint = c.endpoint := rfl
+  have hfz : ({ c with originZone := o } : Ctx).fromZone = c.fromZone := by
+    cases he : c.endpoint with
+    | none => simp [Ctx.fromZone, fromZone, hep, he]
+    | some ez =>
+      have hne : ez ≠ c.localZone := by intro h'; apply h; rw [he, h']
+      simp [Ctx.fromZone, fromZone, hep, he, hne]
+  cases m <;>
+    simp only [applies, accepts, effective, guardAccess, guardLocal, guardParent, guardExecEndpoint, guardCommandSender,
+      guardConfigSender, forwardErrorNotice, noticeReachesSomeoneElse, hep, hfz] <;> rfl
+
+/-! ## What the handlers are told about the sender -/
+
+/-- **model_origin_satisfies_spec.**  For every context: the origin the model's `MessageHandler` builds (`Ctx.endpoint`,
+    `Ctx.fromZone`) satisfies the origin clauses of the specification — an endpoint only for an authenticated, configured
+    identity; no zone without endpoint; a foreign sender's zone is its endpoint's zone, never the claimed one. -/
+theorem model_origin_satisfies_spec (c : Ctx) :
+    specOrigin c { hasEndpoint := c.endpoint.isSome, fromZone := c.fromZone } = none := by
+  unfold specOrigin
+  cases ha : c.authenticated <;> cases hz : c.endpointZone <;>
+    simp [Ctx.endpoint, Ctx.fromZone, fromZone, ha, hz]
+  rename_i ez
+  by_cases h : ez = c.localZone <;> simp [h]
+
+/-- the origin clauses are not vacuous: an unverified certificate with an endpoint's name treated as that endpoint; a
+    child-zone sender judged by the zone it claims -/
+example : specOrigin { exFromMaster with authenticated := false } { hasEndpoint := true, fromZone := none } = some .endpointOnlyIfAuthenticated := by decide
+example : specOrigin { exFromMaster with endpointZone := some 2, originZone := some 0 } { hasEndpoint := true, fromZone := some 0 } = some .judgedBySendersZone := by decide
+example : specOrigin exAnonymous { hasEndpoint := false, fromZone := some 1 } = some .judgedBySendersZone := by decide
+example : specOrigin exPeerClaimsAgent { hasEndpoint := true, fromZone := some 2 } = none := by decide
+
+/-! non-vacuity -/
+theorem exForest_loaded : LoadedSrc exForest := by
+  refine ⟨fun z => if z = 1 then 1 else if z = 2 then 2 else 0, ?_, ?_⟩
+  · intro a p h
+    simp only [exForest] at h
+    by_cases h1 : a = 1
+    · subst h1; simp at h; subst h; decide
+    · by_cases h2 : a = 2
+      · subst h2; simp at h; subst h; decide
+      · simp [h1, h2] at h
+  · intro a
+    show (if a = 1 then 1 else if a = 2 then 2 else 0) ≤ 32
+    split
+    · decide
+    · split <;> decide
+
+
+/-- hypotheses of the completeness theorems on the example forest: the agent zone (2) lies strictly below the satellite
+    (1); a config/command/certificate message from there is refused, from the master (0) it is accepted -/
+example : Below exForest 2 1 ∧ (2 : Zone) ≠ exFromMaster.localZone := ⟨Below.step (by decide) (Below.refl _), by decide⟩
+example : accepts exForest .configUpdateObject { exFromMaster with endpointZone := some 2 } = false := by decide
+example : accepts exForest .configUpdateObject exFromMaster = true := by decide
+example : Method.cls .setAcknowledgement = .stateUpdate ∧ exFromMaster.endpointZone = some 0 ∧ (0 : Zone) ≠ exFromMaster.localZone := by decide
+/-- `model_trace_failure_is_fc13a`: its hypothesis is satisfiable (`model_trace_counterexample` is such a report), and the
+    conclusion names the message at index 1 -/
+example : inFC13a exForest .setForceNextCheck exPeerNoOrigin = true ∧ accepts exForest .setForceNextCheck exPeerNoOrigin = true := by decide
+/-- the executable predicate and the proposition agree on the refused side too -/
+example : entitledB exForest .configUpdateObject { exFromMaster with endpointZone := some 2 } = false := by decide
 
 end Icinga.C13
